@@ -79,7 +79,7 @@ def root_var(rng, batch, n, r):
     return {"shape": list(batch) + [n, r], "data": [x for row in rows for x in row]}
 
 
-VAR_LEAVES = ["DenseVar", "DiagVar", "AddedDiagVar", "SumVar", "CholVar", "RootVar", "ConstantMulVar", "KronVar"]
+VAR_LEAVES = ["DenseVar", "DiagVar", "AddedDiagVar", "SumVar", "CholVar", "RootVar", "ConstantMulVar", "KronVar", "ConstantDiagVar"]
 VAR_CHILD_ROT = ["DenseVar", "DiagVar", "AddedDiagVar", "CholVar", "SumVar", "RootVar"]
 
 
@@ -89,6 +89,9 @@ def gen_var_leaf(rng, cls, batch, n):
         return {"cls": "Dense", "t": spd_var(rng, batch, n)}
     if cls == "DiagVar":
         return {"cls": "Diag", "d": diag_var(rng, batch, n)}
+    if cls == "ConstantDiagVar":
+        B = _prod(batch)
+        return {"cls": "ConstantDiag", "c": {"shape": batch + [1], "data": [s * c for (s, c) in member_params(rng, B)]}, "n": n}
     if cls == "AddedDiagVar":
         return {"cls": "AddedDiag", "base": {"cls": "Dense", "t": spd_var(rng, batch, n)},
                 "diag": {"cls": "Diag", "d": diag_var(rng, batch, n)}}
